@@ -243,7 +243,12 @@ func (s *stores) exec(o wop, hid, maxIdx int) (ev event) {
 			if err := s.bw[o.G].DeleteGroup(); err != nil {
 				ev.Err = "deletegroup: " + err.Error()
 			}
-			s.bw[o.G] = wal.NewBadgerWAL(s.db, s.gids[o.G])
+			// the group may come back under the same id (a replica that moved away and returns): through a new
+			// instance, or - as storage.partition does, which keeps its instance across unloadRaft / loadRaft -
+			// through the very instance that deleted it.  Either must look like a fresh store
+			if (hid+len(o.G))%2 == 0 {
+				s.bw[o.G] = wal.NewBadgerWAL(s.db, s.gids[o.G])
+			}
 			s.ms[o.G] = etcdRaft.NewMemoryStorage()
 		}
 	}()
